@@ -67,6 +67,10 @@ func (p *Parser) nextToken() error {
 		token, err = p.lexer.NextToken()
 	}
 	if err != nil {
+		// The lexer cannot get past this point (it does not consume the offending byte). Do not
+		// keep the previous look-ahead: callers that ignore the error would be handed the same
+		// token forever. For the parser the input ends here.
+		p.peekToken = &Token{Type: TokenEOF}
 		return err
 	}
 	p.peekToken = token
